@@ -1,0 +1,68 @@
+//go:build verif
+
+package p2p
+
+import (
+	"github.com/MixinNetwork/mixin/crypto"
+)
+
+// Verification hooks (build tag verif) for C31: register fake remote peers in
+// the neighbor maps of a Peer without any network connection, and drain the
+// messages the real send path (sendToPeer) offered to their rings.  No send
+// logic lives here.
+
+const VerifC31TransportMessageMaxSize = TransportMessageMaxSize
+
+// VerifC31Sent is one message offered to the ring of an injected peer.
+type VerifC31Sent struct {
+	Peer crypto.Hash // the injected peer whose ring received the message
+	High bool        // highRing (true) or normalRing (false)
+	Key  []byte      // ChanMsg.key
+	Data []byte      // ChanMsg.data, exactly the bytes that would go on the wire
+}
+
+// VerifC31AddRelayer registers a connected relayer peer (isRelayer=true) under
+// id in me.relayers, as connectRelayer does after the handshake, but without a
+// QUIC client or the send/receive loops.
+func (me *Peer) VerifC31AddRelayer(id crypto.Hash) *Peer {
+	p := NewPeer(nil, id, "127.0.0.1:7239", true)
+	if !me.relayers.Put(id, p) {
+		panic(id)
+	}
+	return p
+}
+
+// VerifC31AddConsumer registers a directly connected non-relayer neighbor
+// under id in me.consumers, as ListenConsumers does after authentication.
+func (me *Peer) VerifC31AddConsumer(id crypto.Hash) *Peer {
+	p := NewPeer(nil, id, "127.0.0.1:7240", false)
+	if !me.consumers.Put(id, p) {
+		panic(id)
+	}
+	return p
+}
+
+// VerifC31Drain empties both rings of an injected peer without the cache
+// filter of pollRingWithCache and returns what was offered, high ring first.
+func (p *Peer) VerifC31Drain() []*VerifC31Sent {
+	var out []*VerifC31Sent
+	for {
+		select {
+		case m := <-p.highRing:
+			out = append(out, &VerifC31Sent{Peer: p.IdForNetwork, High: true, Key: m.key, Data: m.data})
+			continue
+		default:
+		}
+		break
+	}
+	for {
+		select {
+		case m := <-p.normalRing:
+			out = append(out, &VerifC31Sent{Peer: p.IdForNetwork, High: false, Key: m.key, Data: m.data})
+			continue
+		default:
+		}
+		break
+	}
+	return out
+}
